@@ -33,6 +33,9 @@ type Case struct {
 	Clients  []harness.ClientSpec `json:"clients,omitempty"`
 	// SecondPrepare: "" | "before" | "during" (see harness.Spec.SecondPrepare).
 	SecondPrepare string `json:"second_prepare,omitempty"`
+	// RejectedPrepares: that many preparations of a damaged copy of the text (an output referring to a
+	// step that does not exist) are made right before the second preparation.
+	RejectedPrepares int `json:"rejected_prepares,omitempty"`
 	// Program2, when set, is what the second preparation is made from: the same workflow text as Program
 	// with other contents in the sub-workflow files it names.
 	Program2 *ir.Program      `json:"program2,omitempty"`
@@ -80,6 +83,11 @@ func (c *Case) Spec(journal bool) harness.Spec {
 	}
 	if c.Program != nil {
 		sp.Text, sp.Files = c.Program.YAML(), c.Program.Files()
+		if c.RejectedPrepares > 0 && len(c.Program.Explicit) == 0 {
+			// (the outputs section is the last one of the printed text)
+			sp.RejectedPrepares = c.RejectedPrepares
+			sp.RejectedText = sp.Text + "  zz_refused:\n    x: !expr '$.steps.no_such_step.outputs.success'\n"
+		}
 	}
 	if c.Program2 != nil {
 		sp.Files2 = c.Program2.Files()
@@ -364,6 +372,9 @@ func ShapeOf(p *ir.Program) string {
 func probesOf(c *Case, r *harness.Result) []string {
 	var out []string
 	has := func(k string) bool { return r.Fired[k] > 0 }
+	if c.RejectedPrepares > 0 {
+		out = append(out, "refused_preparations_before_the_second")
+	}
 	if c.SecondPrepare != "" {
 		out = append(out, "second_preparation_"+c.SecondPrepare)
 		// did the second preparation overlap a run?
